@@ -310,6 +310,32 @@ const TOT_NUM_ACCUM_BITS: u32 = 24;
 /// Note that the lookup table size MUST be a power of 2
 const NUM_LUT_INDEX_BITS: u32 = ilog_2(lookup_tables::ADSR_CURVE_LUT_SIZE);
 
+#[cfg(feature = "verif-hooks")]
+impl Adsr {
+    /// `(state, (accumulator, last_accumulator, increment, rolled_over), on_level, off_level, [a, d, s, r])`
+    pub fn verif_state(&self) -> (State, (u32, u32, u32, bool), f32, f32, [f32; 4]) {
+        (
+            self.state,
+            self.phase_accumulator.verif_state(),
+            self.value_when_gate_on_received,
+            self.value_when_gate_off_received,
+            [
+                self.attack_time.0,
+                self.decay_time.0,
+                self.sustain_level.0,
+                self.release_time.0,
+            ],
+        )
+    }
+
+    pub fn verif_set_accumulator(&mut self, acc: u32) {
+        self.phase_accumulator.verif_set_accumulator(acc)
+    }
+
+    pub const VERIF_TOT_NUM_ACCUM_BITS: u32 = TOT_NUM_ACCUM_BITS;
+    pub const VERIF_NUM_LUT_INDEX_BITS: u32 = NUM_LUT_INDEX_BITS;
+}
+
 #[cfg(test)]
 mod tests {
     use super::*;
